@@ -9,12 +9,16 @@ mr=/root/work/mutrepo; mv=/root/work/muteval
 if [ ! -d "$mr/.git" ]; then rm -rf "$mr"; git clone -q /repo "$mr"; fi
 git -C "$mr" fetch -q /repo HEAD 2>/dev/null && git -C "$mr" reset -q --hard FETCH_HEAD
 if [ ! -d "$mv/.git" ]; then rm -rf "$mv"; git clone -q "$root" "$mv"; fi
-( cd "$mv" && git fetch -q "$root" HEAD && git reset -q --hard FETCH_HEAD )
+( cd "$mv" && git fetch -q "$root" HEAD && git reset -q --hard FETCH_HEAD; mkdir -p work )
 sed -i "s|path = \"/repo\"|path = \"$mr\"|" "$mv/harness/Cargo.toml"
 git -C "$mr" apply "$patch" || { echo "patch does not apply"; exit 2; }
 export VERIF_REPO=$mr
 for id in "$@"; do
-  ( cd "$mv" && timeout 1800 tools/check "$id" quick 2>&1 | grep -E "^(VIOLATION|KNOWN-FINDING|$id )" | cut -c1-400 )
-  echo "-- $id exit: $?"
+  ( cd "$mv" && timeout 1800 tools/check "$id" quick > "$mv/work/mut_$id.log" 2>&1; echo "-- $id exit: $?" )
+  grep -E "^(VIOLATION|KNOWN-FINDING|$id )" "$mv/work/mut_$id.log" | cut -c1-300
+  r=$(grep -o "replay=[^ ]*" "$mv/work/mut_$id.log" | head -1 | cut -d= -f2); [ -n "$r" ] && python3 -c "
+import json,sys
+d=json.load(open('$r'))
+print('   replay:', {k:(str(v)[:300]) for k,v in d.items() if k in ('kind','case','cases','impl','model_and_spec','theorem_or_file','name','detail')})"
 done
 git -C "$mr" checkout -q -- . ; git -C "$mr" clean -fdq
